@@ -183,3 +183,63 @@ theorem menter_mexit (H : Hier) (hH : H.SelfFirst) : ∀ (sites : List Site) (st
           exact absurd hr (by simp)
 
 end J2O.C13
+
+namespace J2O.C13
+
+/-! ### own copies of inherited attributes (the benign case outside `goodKey`) -/
+
+/-- single-inheritance-like hierarchies: the MRO of every class on the MRO of `s` is the tail of
+    the MRO of `s` from that class on (true for every hierarchy without diamonds) -/
+def Hier.Linear (H : Hier) : Prop :=
+  ∀ s t, t ∈ H.mro s → ∃ pre, H.mro s = pre ++ H.mro t ∧ t ∉ pre
+
+theorem firstOwn_setOwn_other_attr (o : Own) (t : Tgt) (a a' : Attr) (v : Option Val) (h : a' ≠ a) :
+    ∀ l, firstOwn (setOwn o t a v) a' l = firstOwn o a' l := by
+  intro l
+  induction l with
+  | nil => rfl
+  | cons x xs ih =>
+    simp only [firstOwn, setOwn]
+    have : ¬ (x = t ∧ a' = a) := fun hh => h hh.2
+    simp only [this, if_false, ih]
+
+theorem firstOwn_setOwn_not_mem (o : Own) (t : Tgt) (a : Attr) (v : Option Val) :
+    ∀ l, t ∉ l → firstOwn (setOwn o t a v) a l = firstOwn o a l := by
+  intro l
+  induction l with
+  | nil => intro _; rfl
+  | cons x xs ih =>
+    intro h
+    simp only [List.mem_cons, not_or] at h
+    have hx : x ≠ t := fun hh => h.1 hh.symm
+    simp only [firstOwn, setOwn, hx, false_and, if_false, ih h.2]
+
+theorem firstOwn_append (o : Own) (a : Attr) (l₁ l₂ : List Tgt) :
+    firstOwn o a (l₁ ++ l₂) = (firstOwn o a l₁).orElse (fun _ => firstOwn o a l₂) := by
+  induction l₁ with
+  | nil => simp [firstOwn]
+  | cons x xs ih =>
+    simp only [List.cons_append, firstOwn]
+    cases o x a with
+    | some v => simp
+    | none => simpa using ih
+
+/-- **An own copy of an inherited attribute is invisible** to `getattr` on every target, in a
+    hierarchy without diamonds. -/
+theorem ownCopy_invisible (H : Hier) (hH : H.SelfFirst) (hL : H.Linear) (o : Own) (t : Tgt) (a : Attr)
+    (v : Val) (hnone : o t a = none) (hv : firstOwn o a (H.mro t) = some v) (s : Tgt) (a' : Attr) :
+    lookup H (setOwn o t a (some v)) s a' = lookup H o s a' := by
+  unfold lookup
+  by_cases ha : a' = a
+  · subst ha
+    by_cases hm : t ∈ H.mro s
+    · obtain ⟨pre, hpre, hnot⟩ := hL s t hm
+      rw [hpre, firstOwn_append, firstOwn_append, firstOwn_setOwn_not_mem o t a' _ pre hnot]
+      obtain ⟨rest, hr⟩ := hH t
+      have h1 : firstOwn (setOwn o t a' (some v)) a' (H.mro t) = some v := by
+        rw [hr]; simp [firstOwn, setOwn]
+      rw [h1, hv]
+    · rw [firstOwn_setOwn_not_mem o t a' _ _ hm]
+  · rw [firstOwn_setOwn_other_attr o t a a' _ ha]
+
+end J2O.C13
